@@ -188,9 +188,15 @@ class RomFSReader(TypeReaderBase, FS):
         if lv3.filedata_offset < lv3.filemeta.offset + lv3.filemeta.size:
             raise InvalidRomFSHeaderError('File Data offset is before the end of the File Metadata region')
 
+        self._file.seek(self._start + lv3_offset + lv3.dirmeta.offset)
+        dirmeta = BytesIO(self._file.read(lv3.dirmeta.size))
+        self._file.seek(self._start + lv3_offset + lv3.filemeta.offset)
+        filemeta = BytesIO(self._file.read(lv3.filemeta.size))
+
         # a table can not hold more entries than this, following more links than that means they form a loop
-        max_dir_entries = lv3.dirmeta.size // 0x18
-        max_file_entries = lv3.filemeta.size // 0x20
+        # (counted from what was actually read, the sizes in the header can be larger than the file)
+        max_dir_entries = len(dirmeta.getvalue()) // 0x18
+        max_file_entries = len(filemeta.getvalue()) // 0x20
         visited_dir_entries = 0
         visited_file_entries = 0
 
@@ -253,11 +259,6 @@ class RomFSReader(TypeReaderBase, FS):
 
         self._tree_root = {'name': 'ROOT'}
         self.total_size = 0
-
-        self._file.seek(self._start + lv3_offset + lv3.dirmeta.offset)
-        dirmeta = BytesIO(self._file.read(lv3.dirmeta.size))
-        self._file.seek(self._start + lv3_offset + lv3.filemeta.offset)
-        filemeta = BytesIO(self._file.read(lv3.filemeta.size))
 
         iterate_dir(self._tree_root, dirmeta.read(0x18), '/', dirmeta, filemeta)
 
